@@ -38,7 +38,7 @@ ASSUMPTIONS = [
 ]
 TIERS = {
     "quick": {"shards": 16, "cases": 110, "timeout": 600},
-    "thorough": {"shards": 16, "cases": 3500, "timeout": 7200},
+    "thorough": {"shards": 16, "cases": 10000, "timeout": 7200},
 }
 FLOORS = {
     "quick": {"programs": 1200, "core_runs": 8000, "conflicting_pairs_ordered_by_barriers": 20000, "barriers_executed": 10000, "distinct_nontrivial": 300, "back_edge_pairs_checked": 5000, "dealloc_pairs_checked": 200},
